@@ -77,7 +77,7 @@ async fn stream_scenario(rng_seed: u64, pair: (SocketType, SocketType), uring: b
   }
   let ep = util::bind_fresh(&b, Transport::Tcp).await.ok()?;
   a.connect(&ep).await.ok()?;
-  tokio::time::sleep(Duration::from_millis(300)).await;
+  tokio::time::sleep(util::scaled(Duration::from_millis(300))).await;
   let run = (rng.next() & 0x7FFF_FFFF) as u32;
   let n = sizes.len() as u32;
   let a2 = a.clone();
@@ -354,7 +354,7 @@ fn main() {
   }
   // quiescence gauges
   rt.block_on(async {
-    tokio::time::sleep(Duration::from_millis(800)).await;
+    tokio::time::sleep(util::scaled(Duration::from_millis(800))).await;
   });
   let g = rzmq::verif::gauges();
   let in_use = g.get("uring.send_pool.in_use").copied().unwrap_or(0);
@@ -365,7 +365,7 @@ fn main() {
   }
   let mut fd1 = util::open_fds();
   let t2 = Instant::now();
-  while fd1 > fd0 && t2.elapsed() < Duration::from_secs(4) {
+  while fd1 > fd0 && t2.elapsed() < util::scaled(Duration::from_secs(4)) {
     std::thread::sleep(Duration::from_millis(100));
     fd1 = util::open_fds();
   }
